@@ -5,7 +5,7 @@
    stepping; the other operations by the correspondence run (per-identity ledger on both sides). *)
 From Coq Require Import ZArith List Bool Lia.
 From MV Require Import Ast Eval Scalar Machine Model Policy.
-From MV.Proofs Require Import Arith Logic Prim View OpsLocal Guards Grow Drops DrainIt CapHistory Core Refine Life IntoIt Clone Append.
+From MV.Proofs Require Import Arith Logic Prim View OpsLocal Guards Grow Drops DrainIt CapHistory Core Refine Life IntoIt Clone Append SplitOff.
 Import ListNotations.
 Open Scope Z_scope.
 
@@ -197,3 +197,18 @@ Theorem C02_append_is_list_concatenation :
     (fun s' => s' = s).
 Proof. exact append_abs. Qed.
 Print Assumptions C02_append_is_list_concatenation.
+
+(* split_off(at) for 0 < at <= len (at > len is rejected: C11; at = 0 and the empty vector hand the
+   buffer over / allocate an empty one: by correspondence): self keeps the first `at` elements, the
+   new vector holds the rest, in order, in a block of its own; the ledger is untouched *)
+Theorem C02_split_off_splits_the_list :
+  forall cfg (ncap : Z -> option Z), cfg_ok cfg -> forall s v o b bl at_,
+  vec_at s v b bl -> block_ok cfg bl -> owned s bl -> v <> o ->
+  0 < at_ <= h_len bl ->
+  post (split_off cfg v o at_ s)
+    (fun _ s' => vabs cfg s' v (firstn (Z.to_nat at_) (velems bl)) /\ vabs cfg s' o (skipn (Z.to_nat at_) (velems bl)) /\
+                 only_changes s s' [] /\
+                 (forall bv blv bo blo, vec_at s' v bv blv -> vec_at s' o bo blo -> bv <> bo))
+    (fun _ => True).
+Proof. exact split_off_middle. Qed.
+Print Assumptions C02_split_off_splits_the_list.
